@@ -63,7 +63,7 @@ def register2(reg):
              ensures=[('property', f'{S} == {OS}[:-1] + [spec_at({OTOP}, {WS})]'), f'{WS} >= {OTOP}.cursor.pos', f'{WS} <= {OTOP}.cursor.len'])
     contract(reg, f'{K}:ParserCore.next_token#ri', ALL + ['C09', 'C03', 'C04'], {'self': 'Ctx', 'ri': 'RuleInfoR'}, ret='None', requires=REQ,
              ensures=[('property', f'{S} == {OS}[:-1] + [spec_at({OTOP}, ({OTOP}.cursor.pos if ri.is_tokn else {WS}))]'),
-                      f'{WS} >= {OTOP}.cursor.pos', f'{WS} <= {OTOP}.cursor.len'])
+                      f'implies(not ri.is_tokn, {WS} >= {OTOP}.cursor.pos and {WS} <= {OTOP}.cursor.len)'])
     MATCH = f'spec_token_matches({OTOP}.cursor, {WS}, token)'
     contract(reg, f'{X}:ParseContext.token', ALL + ['C09'], {'self': 'Ctx', 'token': 'str'}, ret='Val', requires=REQ,
              **leaf(MATCH, f'spec_appended(spec_at({OTOP}, min({OTOP}.cursor.len, {WS} + len(token))), token)', 'result == token',
@@ -96,7 +96,7 @@ def register2(reg):
         raises={'FailedParse': [f'{S} == {OS}[:-1] + [out_fail_frame(exp, {OTOP})]', f'not out_ok(exp, {OTOP})',
                                 f'spec_same_text({OTOP}, {TOP})',
                                 f'{TOP}.cutseen == ({OTOP}.cutseen or out_cut(exp, {OTOP}))']},
-        propagates=[GROW, f'implies(not exc_inside(exc), {SAME})'])
+        propagates=[GROW, f'implies(not exc_inside(exc), {SAME})', f'implies(exc_is(exc, "ParseException"), not out_ok(exp, {OTOP}))'])
     contract(reg, f'{X}:ParseContext.expcall', ALL, {'self': 'Ctx', 'exp': 'func:PARSE'}, ret='Val', requires=REQ, **SAMEAS)
 
     # -- isolate: run exp in its own frame, keep position and names, return its (closed) cst;
@@ -118,8 +118,11 @@ def register3(reg):
     SHAPE = [f'top_only({S}, {OS})', f'spec_same_text({OTOP}, {TOP})']
     contract(reg, 'tatsu/util/misc.py:prune_dict', ['C04', 'C05', 'C03'], {'d': 'MemoD', 'predicate': 'any'}, ret='None', verify=False,
              modifies=['d'], ensures=['submap(d, old_d)'], note='removes the entries the predicate selects; C04 checks the selection in a bounded run')
-    contract(reg, f'{K}:ParserCore.cut', ALL, {'self': 'Ctx'}, ret='None', requires=REQ,
-             ensures=[('property', f'{S} == {OS}[:-1] + [spec_with_cut({OTOP})]')])
+    contract(reg, f'{K}:ParserCore.cut', ALL + ['C04'], {'self': 'Ctx'}, ret='None', requires=REQ,
+             modifies=['self.states.state_stack', 'self._memos'],
+             ensures=[('property', f'{S} == {OS}[:-1] + [spec_with_cut({OTOP})]'),
+                      ('property', 'submap(self._memos, old_self._memos)'),
+                      ('property', 'implies(not self._active_config.prune_memos_on_cut, self._memos.mkeys == old_self._memos.mkeys and self._memos.mvals == old_self._memos.mvals)')])
     for variant, pfx in (('', 'func:PARSE'), ('#nosep', 'None')):
         contract(reg, f'{X}:ParseContext.repeat{variant}', ALL,
                  {'self': 'Ctx', 'exp': 'func:PARSE', 'prefix': pfx, 'omitsep': 'bool'}, ret='None',
